@@ -775,6 +775,9 @@ class Machine:
             return True
         if s == '()':
             return []
+        m = re.match(r"^(?:core::num::<impl )?(\w+)>?::BITS$", s)
+        if m and m.group(1) in BITS:
+            return I(BITS[m.group(1)], 'u32')
         if re.match(r'^Option::<.*>::None$', s):
             return Enum('None')
         if s.startswith('ZeroSized: '):
